@@ -141,7 +141,7 @@ def run(ctx):
             return ['Serial', 'OpenMP', 'CUDA', 'OpenCL']
         return [('Serial', 'OpenMP', 'Serial', 'CUDA')[cnt[0] % 4]]
     wv = [dict(A=1, B=2, C_=3, D=4, U=7), dict(A=3, B=1, C_=2, D=2, U=60), dict(A=12, B=12, C_=1, D=5, U=1)]
-    tmo = 600 if thorough else 200
+    tmo = 1200 if thorough else 600
     qs, rejected = O.make_queries(ctx, progs, O.MODES, harness, known_keys=list(known), timeout=tmo, witness_vectors=wv, modes_of=modes_of)
     # a batch occa rejects is rebuilt from the expressions it accepts one by one (rejected ones are recorded, not violations:
     # the property quantifies over text occa parses)
